@@ -18,6 +18,13 @@ honest cases (kex x host key algorithm x 0..3 rekeys started by either side):
     string it sent. Uncompressed: everything above. Compressed (optional in RFC 5656): completion is
     not demanded, but every exchange hash the client computed must be the server's (= the RFC hash
     of the wire octets), and if the session completes everything above holds as well.
+  * SHAPE OF THE SHARED SECRET (K enters H as an mpint; the raw modexp / ECDH / X25519 result has a leading 00 byte
+    once in 256 exchanges, and needs a sign byte every second time): honest reference servers for EVERY kex method
+    (`refkex.ref_server`, cryptography + hashlib + refssh only) that keep drawing their ephemeral key until K is
+    "short" (fits in fewer bytes than the field / modulus) or "signpad" (bit length a multiple of 8), in the initial
+    exchange and in every re-exchange; all of the above is demanded. The shape of every recorded K is counted
+    (classes K-shape:short / signpad / plain, per kex family). Only a server can steer K (the client commits to its
+    public value first), so for paramiko in the server role short secrets occur at the natural rate only.
   * configuration of the honest sessions: IDENTIFICATION STRINGS (V_C, V_S enter H in full, RFC 4253 8): each side
     sends paramiko's default or a drawn `SSH-2.0-software[ SP comment]` line (server also SSH-1.99-; comment of
     printable ASCII, may contain spaces and '-', total <= 253 characters), set through `Transport.local_version`;
@@ -51,14 +58,17 @@ fault cases: ONE alteration of the server's reply in exchange number k = 1 + len
 """
 from hypothesis import strategies as st
 
-from vlib import lying, mitm, peers
+from vlib import lying, mitm, peers, refkex
 from vlib import refssh as R
 
 PROPERTY = "C06"
 LEVEL = "exploration"
 RULE = (
     "kex method (10) x host key algorithm (7) forced via disabled_algorithms; honest sessions with 0..3 re-exchanges "
-    "(initiator drawn per rekey; ECDH-NIST also against a reference server sending Q_S uncompressed / compressed) x identification "
+    "(initiator drawn per rekey; ECDH-NIST also against a reference server sending Q_S uncompressed / compressed; every kex also "
+    "against an honest reference server that draws its ephemeral key until the shared secret K is 'short' = has a leading 00 byte "
+    "in the raw result, or 'signpad' = bit length a multiple of 8: classes server:ref-short / server:ref-signpad, K-shape:<shape>"
+    "[:<family>] counted per exchange from the recorded K) x identification "
     "strings (default / drawn software version with or without a comment, per side) x preference plan (none, or before each "
     "re-exchange another (kex, host key algorithm) pair moved to the front of / left alone on the client's lists, server optionally "
     "dropping the previous host key algorithm; per-exchange expectations derived from the KEXINITs on the wire); fault "
@@ -66,7 +76,8 @@ RULE = (
     "k >= 2 inside the non-tested server before encryption): bit flip at a drawn position of K_S / signature / Q_S or f, "
     "substituted f / Q_S / signature algorithm name / host key / gex p,g, replayed earlier reply, equivalent re-encoding of "
     "Q_S / f / K_S, lying signer (signature over other data / of another algorithm / of another key). quick enumerates every "
-    "kex and every host key algorithm at least twice on the honest path, every kex for the fault path at k = 1 and k = 2 and "
+    "kex and every host key algorithm at least twice on the honest path, every kex once with a short K (initial or re-exchange) "
+    "and one method per family with a sign-padded K, every kex for the fault path at k = 1 and k = 2 and "
     "every alteration kind at k = 2 and k = 3, the rest is hypothesis-drawn. non-trivial = fault session, or honest session "
     "with >= 1 re-exchange or a non-paramiko server; distinct by full case"
 )
@@ -131,6 +142,11 @@ def _wire_choice(c_kexinit, s_kexinit):
     return kex, hk
 
 
+# honest reference servers (vlib.refkex, every kex method) that choose their ephemeral key so that the shared
+# secret has a given shape: "short" = at least one leading 00 byte in the raw result (the mpint is shorter than the
+# field), "signpad" = bit length a multiple of 8 (the mpint needs a 00 in front)
+KSHAPE_SERVERS = {"ref-short": "short", "ref-signpad": "signpad"}
+
 IDENT_SOFT = "ABCDEFGHIJKLMNOPQRSTUVWXYZabcdefghijklmnopqrstuvwxyz0123456789_.+"
 IDENT_COMMENT = "".join(chr(c) for c in range(0x20, 0x7F))
 
@@ -146,6 +162,8 @@ def _norm_honest(case):
     if case.get("plan"):
         case["plan"] = [dict(st_ or {}) for st_ in case["plan"]][: len(case["rekeys"])]
     curves_used = [case["kex"]] + [st_.get("kex") for st_ in case.get("plan") or []]
+    if case.get("server", "paramiko") in KSHAPE_SERVERS:
+        return case
     if case.get("server", "paramiko") != "paramiko" and any(k in CURVES for k in curves_used):
         return case
     return {k: v for k, v in case.items() if k != "server"}
@@ -197,7 +215,9 @@ def run_honest(ctx, case):
             so.key_types = _front(ALLKEYALGS, hostalg, "front")
         else:
             link, tc, ts = _pair(kex, hostalg, server_cls=scls)
-        if server != "paramiko":
+        if server in KSHAPE_SERVERS:
+            ts.v_install_engines({k: refkex.ref_server(k, KSHAPE_SERVERS[server]) for k in (KEXES if multi else [kex])})
+        elif server != "paramiko":
             ts.v_install_engines({k: lying.ref_ecdh_server(k, server[4:]) for k in (CURVES if multi else [kex])})
         if ident.get("c"):
             tc.local_version = ident["c"]
@@ -286,6 +306,13 @@ def run_honest(ctx, case):
             ctx.violation("reply-well-formed", "%s:%s" % (bucket, str(e)[:30]), case, "exchange %d: %r" % (i, e))
             return False
         K, H = ckh[i]
+        gex_p = mitm.unpack(dict(sex[i]["msgs"])[31], "mm")[1] if mitm.kex_family(kex_i) == "gex" else None
+        shapes = refkex.k_shapes(kex_i, K, gex_p) or ["plain"]
+        for shp in shapes:
+            ctx.count("K-shape:%s" % shp)
+            ctx.count("K-shape:%s:%s" % (shp, mitm.kex_family(kex_i)))
+        if server in KSHAPE_SERVERS and KSHAPE_SERVERS[server] not in shapes:
+            raise RuntimeError("reference server %s produced a shared secret of shape %r in exchange %d" % (server, shapes, i))
         ref = mitm.exchange_hash(kex_i, v_c, v_s, cex[i]["kexinit"], sex[i]["kexinit"], facts["k_s"], facts["mid"], K)
         if ref != H:
             ctx.violation("exchange-hash-is-rfc", "%s" % mitm.kex_family(kex_i) + ":" + kex_i, case, "exchange %d: recorded H %s, RFC hash of the wire data %s (V_C %r, V_S %r)" % (i, H.hex(), ref.hex(), v_c, v_s))
@@ -710,7 +737,7 @@ def honest_st(kex_st, max_rekeys=3):
             "kex": kex_st,
             "hostalg": st.sampled_from(ALLKEYALGS),
             "rekeys": st.lists(st.sampled_from(["c", "s"]), min_size=0, max_size=max_rekeys),
-            "server": st.sampled_from(["paramiko", "paramiko", "ref-uncompressed", "ref-compressed", "ref-compressed"]),
+            "server": st.sampled_from(["paramiko", "paramiko", "ref-uncompressed", "ref-compressed", "ref-compressed", "ref-short", "ref-short", "ref-signpad"]),
             "ident": st.fixed_dictionaries({"c": ident_st(False), "s": ident_st(True)}),
             "plan": st.one_of(st.none(), st.lists(plan_step_st(kex_st), min_size=max_rekeys, max_size=max_rekeys)),
         }
@@ -796,7 +823,9 @@ def fault_floor():
 
 
 def run(ctx):
-    ctx.set_budget(85, 840)
+    # (VERIF_BUDGET_SCALE: validation runs on an oversubscribed machine may stretch the wall-clock safety net; never part of a verdict)
+    _bs = max(1.0, float(__import__("os").environ.get("VERIF_BUDGET_SCALE", "1") or 1))
+    ctx.set_budget(85 * _bs, 840 * _bs)
     quick = ctx.quick
     # 1. coverage floor: every kex x rotating host key algorithm, honest with one rekey, and one
     #    fault per kex; thorough: full kex x hostalg product sharded over the workers
@@ -808,6 +837,12 @@ def run(ctx):
         for i, kex in enumerate(CURVES):
             combos.append((kex, ALLKEYALGS[(2 * i + 1) % 7], [["c"], ["s", "c"], []][i], "ref-compressed"))
             combos.append((kex, ALLKEYALGS[(2 * i + 4) % 7], [[], ["s"], ["c", "s"]][i], "ref-uncompressed"))
+        # shared-secret shapes: every kex against a reference server that picks a "short" K (initial exchange and
+        # one re-exchange), one method per family with a sign-padded K
+        for i, kex in enumerate(KEXES):
+            combos.append((kex, ALLKEYALGS[(i + 5) % 7], [["s"], ["c"], []][i % 3], "ref-short"))
+        for i, kex in enumerate(CHEAP):
+            combos.append((kex, ALLKEYALGS[(i + 1) % 7], [[], ["c"]][i % 2], "ref-signpad"))
     else:
         allc = [(k, h) for k in KEXES for h in ALLKEYALGS]
         for j, (k, h) in enumerate(allc):
@@ -815,6 +850,7 @@ def run(ctx):
                 combos.append((k, h, ["c", "s"][: 1 + j % 2], "paramiko"))
                 if k in CURVES:
                     combos.append((k, h, ["s", "c"][: 1 + j % 2], ["ref-compressed", "ref-uncompressed"][j % 2]))
+                combos.append((k, h, ["c", "s"][: j % 3], ["ref-short", "ref-short", "ref-signpad"][j % 3]))
     for j, (kex, hostalg, rk, server) in enumerate(combos):
         if ctx.out_of_time():
             break
@@ -835,7 +871,7 @@ def run(ctx):
     ctx.note("kex_x_hostalg_honest_floor", len(combos))
     # 2. hypothesis-drawn remainder; quick keeps to the cheap methods, thorough draws from all
     kex_st = st.sampled_from(CHEAPISH) if quick else st.one_of(st.sampled_from(CHEAPISH), st.sampled_from(KEXES))
-    ctx.explore(fault_st(kex_st), lambda c: _dispatch(ctx, c), ctx.scale(220, 6000), shrink=False, seed_offset=0)
+    ctx.explore(fault_st(kex_st), lambda c: _dispatch(ctx, c), ctx.scale(205, 6000), shrink=False, seed_offset=0)
     ctx.explore(honest_st(kex_st, 3), lambda c: _dispatch(ctx, c), ctx.scale(40, 1000), shrink=False, seed_offset=1)
 
 
